@@ -90,6 +90,7 @@ type Run struct {
 	findings  []Finding
 	maxSample int
 	Replay    string // non-empty: replay mode, path of the case file
+	InRegress bool   // true while committed regression files are being replayed (known findings are not masked then)
 }
 
 func envInt(k string, d int) int {
@@ -225,9 +226,9 @@ func (r *Run) Sample(class string, v func() any) {
 	r.S.Samples = append(r.S.Samples, map[string]any{"class": class, "case": v()})
 }
 
-func (r *Run) Rule(s string)          { r.S.Rule = s }
-func (r *Run) Assume(s ...string)     { r.S.Assumptions = append(r.S.Assumptions, s...) }
-func (r *Run) Note(s string)          { r.mu.Lock(); r.S.Notes = append(r.S.Notes, s); r.mu.Unlock() }
+func (r *Run) Rule(s string)           { r.S.Rule = s }
+func (r *Run) Assume(s ...string)      { r.S.Assumptions = append(r.S.Assumptions, s...) }
+func (r *Run) Note(s string)           { r.mu.Lock(); r.S.Notes = append(r.S.Notes, s); r.mu.Unlock() }
 func (r *Run) ExhaustiveOver(s string) { r.S.Exhaustive = append(r.S.Exhaustive, s) }
 func (r *Run) Inconclusive(s string) {
 	r.mu.Lock()
@@ -245,8 +246,11 @@ func (r *Run) knownFor(sig string) *Finding {
 	return nil
 }
 
-// IsKnown lets a generator/oracle exclude a listed finding by construction.
-func (r *Run) IsKnown(sig string) bool { return r.knownFor(sig) != nil }
+// IsKnown lets a generator/oracle exclude a listed finding by construction during the search
+// (never while the committed regression files are replayed, which is what re-fires the finding).
+func (r *Run) IsKnown(sig string) bool {
+	return !r.InRegress && r.Replay == "" && r.knownFor(sig) != nil
+}
 
 // Violate records a violation with its replayable case value. Returns the replay path.
 func (r *Run) Violate(caseValue any, f *Failure, shrunk bool) string {
@@ -346,6 +350,13 @@ func (r *Run) Finish() {
 		for _, n := range r.S.Inconclusive {
 			fmt.Printf("  INCONCLUSIVE %s\n", n)
 		}
+		seen := map[string]int{}
+		for _, n := range r.S.Notes {
+			seen[trunc(n, 300)]++
+		}
+		for n, c := range seen {
+			fmt.Printf("  note x%d: %s\n", c, n)
+		}
 	}
 }
 
@@ -362,17 +373,17 @@ func (q *quietTB) Name() string { return q.name }
 func (q *quietTB) Logf(format string, args ...any) {
 	q.logs = append(q.logs, fmt.Sprintf(format, args...))
 }
-func (q *quietTB) Log(args ...any)                    { q.logs = append(q.logs, fmt.Sprint(args...)) }
-func (q *quietTB) Skipf(format string, args ...any)   {}
-func (q *quietTB) Skip(args ...any)                   {}
-func (q *quietTB) SkipNow()                           {}
-func (q *quietTB) Errorf(format string, args ...any)  { q.failed = true; q.Logf(format, args...) }
-func (q *quietTB) Error(args ...any)                  { q.failed = true; q.Log(args...) }
-func (q *quietTB) Fatalf(format string, args ...any)  { q.failed = true; q.Logf(format, args...) }
-func (q *quietTB) Fatal(args ...any)                  { q.failed = true; q.Log(args...) }
-func (q *quietTB) FailNow()                           { q.failed = true }
-func (q *quietTB) Fail()                              { q.failed = true }
-func (q *quietTB) Failed() bool                       { return q.failed }
+func (q *quietTB) Log(args ...any)                   { q.logs = append(q.logs, fmt.Sprint(args...)) }
+func (q *quietTB) Skipf(format string, args ...any)  {}
+func (q *quietTB) Skip(args ...any)                  {}
+func (q *quietTB) SkipNow()                          {}
+func (q *quietTB) Errorf(format string, args ...any) { q.failed = true; q.Logf(format, args...) }
+func (q *quietTB) Error(args ...any)                 { q.failed = true; q.Log(args...) }
+func (q *quietTB) Fatalf(format string, args ...any) { q.failed = true; q.Logf(format, args...) }
+func (q *quietTB) Fatal(args ...any)                 { q.failed = true; q.Log(args...) }
+func (q *quietTB) FailNow()                          { q.failed = true }
+func (q *quietTB) Fail()                             { q.failed = true }
+func (q *quietTB) Failed() bool                      { return q.failed }
 
 // Prop is a property body: it draws a case value with rapid, executes it and returns
 // (caseValue, failure). caseValue must be JSON-serialisable and sufficient for the check's
@@ -391,6 +402,8 @@ func (r *Run) Search(t *testing.T, name string, sub int, checks int, prop Prop) 
 	flag.Set("rapid.nofailfile", "true")
 	if os.Getenv("VERIF_SHRINKTIME") != "" {
 		flag.Set("rapid.shrinktime", os.Getenv("VERIF_SHRINKTIME"))
+	} else {
+		flag.Set("rapid.shrinktime", "20s")
 	}
 	var lastCase any
 	var lastFail *Failure
@@ -473,6 +486,8 @@ func (r *Run) Regress(run func(raw json.RawMessage) *Failure) {
 		files, _ = filepath.Glob(filepath.Join(r.Root, "replays", "regress", r.S.Property+"-*.json"))
 		sort.Strings(files)
 	}
+	r.InRegress = true
+	defer func() { r.InRegress = false }()
 	for _, f := range files {
 		raw, _, err := LoadReplay(f)
 		if err != nil {
